@@ -528,6 +528,29 @@ impl History {
             titles.push(t);
             next_id += 1;
         }
+        if cx.tier != Tier::Miri && cx.rng.chance(1, 25) {
+            // a crowd of 21-60 records with one rating (ties everywhere), titles with and without words in no particular
+            // order, a limit above ten, and the empty query: whatever orders them is asked about every pair
+            let pool = ["b", "a", "---", "", "!!!", "c a", " ", "a", "Zed", "...", "ab", "-", "b a", "\u{e9}", "B"];
+            let rating = *cx.rng.pick(&[0usize, 7, 1 << 20]);
+            let n = cx.rng.range(21, 60);
+            for _ in 0..n {
+                let t = cx.rng.pick(&pool).to_string();
+                st.add(&(mk_id(next_id), t.clone(), rating));
+                titles.push(t);
+                next_id += 1;
+            }
+            st.store.limit = cx.rng.range(11, 40);
+            shown.push(format!("{} adds with rating {} and titles from {:?}, limit({})", n, rating, pool, st.store.limit));
+            for q in ["", " ", "-"].iter() {
+                shown.push(format!("search({:?})", q));
+                cx.ctx(format!("C01 lang={} limit={} markers=({:?},{:?}) history={:?}", lang, st.store.limit, ml, mr, shown));
+                let hits = st.search(q);
+                cx.eval();
+                cx.trace_hits(&hits);
+            }
+            cx.count("histories with a crowd of 21-60 equally rated records, some without words, under the empty query");
+        }
         let nops = cx.rng.range(1, 12);
         let mut interesting = false;
         for _ in 0..nops {
@@ -1323,7 +1346,7 @@ impl Prop for History {
     }
     fn floors(&self) -> Vec<(&'static str, u64, u64)> {
         match self.0 {
-            Which::NoCrash => vec![("searches", 20000, 200000), ("searches with hits", 5000, 50000), ("joined-record hits (two spans from a one-word query)", 50, 500), ("non-ASCII queries", 2000, 20000), ("limit 0", 200, 2000), ("limit 65536", 200, 2000), ("histories with boundary-value record ids", 2000, 20000), ("long-text searches", 500, 5000), ("long-text searches with a query over 255 characters", 100, 1000), ("corpus-store searches", 300, 3000), ("long-text cases with a giant word or a 1000+ word title", 20, 200), ("soak searches on one store", 600000, 2500000), ("most searches on one store max ", 66000, 66000), ("soak stores with more than 2^16 records", 2, 8), ("adds re-using the id of an earlier record", 5000, 50000), ("registry: searches", 10000, 300000), ("registry: searches with hits", 1500, 45000), ("registry: limit changes", 5000, 150000), ("registry: readers that call back into the registry", 1500, 45000), ("code points put through a store", 1000000, 1000000)],
+            Which::NoCrash => vec![("searches", 20000, 200000), ("searches with hits", 5000, 50000), ("joined-record hits (two spans from a one-word query)", 50, 500), ("non-ASCII queries", 2000, 20000), ("limit 0", 200, 2000), ("limit 65536", 200, 2000), ("histories with boundary-value record ids", 2000, 20000), ("long-text searches", 500, 5000), ("long-text searches with a query over 255 characters", 100, 1000), ("corpus-store searches", 300, 3000), ("long-text cases with a giant word or a 1000+ word title", 20, 200), ("soak searches on one store", 600000, 2500000), ("most searches on one store max ", 66000, 66000), ("soak stores with more than 2^16 records", 2, 8), ("adds re-using the id of an earlier record", 5000, 50000), ("registry: searches", 10000, 300000), ("registry: searches with hits", 1500, 45000), ("registry: limit changes", 5000, 150000), ("registry: readers that call back into the registry", 1500, 45000), ("code points put through a store", 1000000, 1000000), ("histories with a crowd of 21-60 equally rated records, some without words, under the empty query", 300, 3000)],
             Which::NoStale => vec![("search after add following an earlier search", 2000, 20000), ("search after clear following an earlier search", 500, 5000), ("search after limit following an earlier search", 500, 5000), ("empty-query search after a mutation following an earlier search", 1000, 10000), ("exhaustive histories", 20000, 200000), ("histories on a crowded store", 2000, 20000), ("histories that clear and refill a crowded store", 2000, 20000), ("histories growing a store past 64/128/256/512 records with searches in between", 200, 5000), ("histories growing a store past 1024 records with searches in between", 60, 1500), ("soak searches on one store", 1000000, 4000000), ("search repeating the previous query after a mutation", 2000, 20000), ("operations on another store of the same thread inside a history", 3000, 30000), ("registry-driven searches compared with a fresh store", 5000, 50000), ("adds re-using the id of an earlier record", 3000, 30000), ("histories whose searches run on other threads than the adds (the store is moved there and back)", 1500, 15000), ("histories whose reference stores are built and searched on threads of their own", 3000, 30000), ("histories with a very long word next to a threshold match", 2000, 20000), ("histories with more than twenty fully tied records and a shrinking limit", 2000, 20000), ("histories with two lives of the same size ending in the same query", 2000, 20000), ("histories in which a text is followed by its own normalised spelling", 2000, 20000), ("histories with two long queries that share their first twenty letters", 1500, 15000), ("histories with 2^8 or 2^16 lives of one store between two equal searches", 500, 5000), ("histories with two closely related marker pairs set one right after the other", 800, 8000)],
             Which::Registry => vec![("observations", 20000, 200000), ("observations with >= 2 live ids holding results", 2000, 20000), ("destroy", 300, 3000), ("searches", 3000, 30000), ("histories over 4-20 store ids", 1000, 10000), ("bursts of 45-120 records", 300, 3000), ("stores created with another language than their neighbours", 3000, 30000), ("searches repeating the text just sent to another id", 2000, 20000), ("histories whose result buffers are read only now and then", 5000, 50000), ("reads that add a record from inside the reader", 5000, 50000), ("searches repeated on the same id after a limit change", 5000, 50000), ("stores emptied in place through using_store", 2000, 20000), ("histories whose model stores answer on threads of their own", 5000, 50000), ("searches repeating the text this id was sent last", 3000, 30000), ("ids destroyed and created again under another language, then sent the same text", 3000, 30000), ("limits written through using_store", 500, 5000), ("marker pairs set right after a closely related pair", 1000, 10000), ("long registry sessions", 48, 480), ("long registry sessions of 2^16 calls or more between two equal searches", 30, 300), ("calls in long registry sessions", 2000000, 20000000)],
         }
